@@ -32,8 +32,9 @@ def bases(t, tier):
         out = [g.rle_block(t, 3, []), g.rle_block(t, 3, [(T, T, T)]), g.rle_block(t, 3, [(T, F, T)], chans=[4]),
                g.rle_block(t, 4, [(F, T, T, F), (T, T, F, T)], chans=[5, 1]),
                g.rle_block(t, 2, [(T, T), (F, F), (T, F)], chans=[2, 0, 9])]
+        out += [g.rle_block(t, 4, [m]) for m in g.all_masks(4)]
         if tier == "thorough":
-            out += [g.rle_block(t, 5, [m]) for m in g.all_masks(5)]
+            out += [g.rle_block(t, 6, [m]) for m in g.all_masks(6)]
         if t == R.T_DATA3D:
             out += [g.data3d(3, [g.mk_track3d(3, (T, F, T), "m")], fmt=2),
                     g.data3d(3, [g.mk_track3d(3, (T, T, T), "m"), g.mk_track3d(3, (F, T, T), "n", 4)], links=[(0, 1), (1, 0)])]
